@@ -92,6 +92,51 @@ theorem C03_zmap_centre (V : Int) (f : Flags) (g : AxGeo) (hg : g.Symmetric) (b 
       4 * ((y.findSymOp b).onVoxel c).z = (y.findSymOp b).zmap4 (4 * c.z) :=
   ⟨zmap_centre V f g hg b, onVoxel_zmap4 _ c⟩
 
+/-- axial part, for whole tubes: the operation found for `b` carries the slab of half-width `w` (quarter planes) around
+    the axial midpoint of the basic bin's LOR onto the slab of the same half-width around the axial midpoint of the
+    LOR of `b` — the planes of a derived row lie around the bin's own LOR exactly as those of the basic row do -/
+theorem C03_onVoxel_z_slab (V : Int) (f : Flags) (g : AxGeo) (hg : g.Symmetric) (b : Bin) (c : Vox) (w : Int) :
+    let y := Sym.make V f g
+    (-w ≤ 4 * c.z - y.centre4 (y.basic b).seg (y.basic b).ax ∧ 4 * c.z - y.centre4 (y.basic b).seg (y.basic b).ax ≤ w) →
+    (-w ≤ 4 * ((y.findSymOp b).onVoxel c).z - y.centre4 b.seg b.ax ∧
+      4 * ((y.findSymOp b).onVoxel c).z - y.centre4 b.seg b.ax ≤ w) :=
+  fun h => onVoxel_z_slab V f g hg b c w h
+
+/-! ### "refers to a voxel inside the image", axial part: false of the code for bins at the axial ends
+
+Known finding `voxel-outside-image-in-z:within-axial-extent-of-end-ring`: rows are not clipped to the planes of the
+image.  On the real code (3 rings, span 1, 5 planes `0..4` of half the ring spacing) `Bin(segment 0, view 0,
+axial_pos 0, tangential 0)` has elements in plane `-1` and `Bin(0,0,2,0)` in plane `5`, with and without symmetries. -/
+
+/-- negative witness: with the ray tracer's row for ring 0 as observed (planes −1, 0, 1 with weights 1:2:1), the rows of
+    the two end rings contain a plane outside the image `0..4`; the middle ring's row does not -/
+theorem C03_row_in_image_z_fails :
+    (spec wEnd () pShiftZ ⟨0, 0, 0, 0, 0⟩).map (fun r => r.elems.map fun e => (e.1.z, endGeo.hasPlane e.1)) =
+        some [(-1, false), (0, true), (1, true)] ∧
+    (spec wEnd () pShiftZ ⟨0, 0, 1, 0, 0⟩).map (fun r => r.elems.map fun e => (e.1.z, endGeo.hasPlane e.1)) =
+        some [(1, true), (2, true), (3, true)] ∧
+    (spec wEnd () pShiftZ ⟨0, 0, 2, 0, 0⟩).map (fun r => r.elems.map fun e => (e.1.z, endGeo.hasPlane e.1)) =
+        some [(3, true), (4, true), (5, false)] := by decide
+
+/-- … and this is not a matter of the basic row alone: the `shift_z` operation of the last ring moves plane 1, which
+    is inside the image, to plane 5, which is not (the z range of the image is not invariant under the operations,
+    unlike the square `|x|,|y| ≤ n`) -/
+theorem C03_onVoxel_in_image_z_fails :
+    endGeo.hasPlane ⟨1, 0, 0⟩ = true ∧ endGeo.hasPlane ((yEnd.findSymOp ⟨0, 0, 2, 0, 0⟩).onVoxel ⟨1, 0, 0⟩) = false := by decide
+
+/-- `_partial`: the extra hypothesis `hin` says that the tube of the requested bin — the slab of half-width `w` around
+    the axial midpoint of its LOR — lies inside the planes of the image; it excludes exactly the bins of the known
+    finding (tubes of the end rings, which stick out of an image that only just covers the ring centres).  For all
+    other bins every voxel derived from a voxel in the basic bin's tube lies in a plane of the image. -/
+theorem C03_row_in_image_z_partial (V : Int) (f : Flags) (g : AxGeo) (hg : g.Symmetric) (b : Bin) (c : Vox) (w : Int)
+    (hc : -w ≤ 4 * c.z - (Sym.make V f g).centre4 ((Sym.make V f g).basic b).seg ((Sym.make V f g).basic b).ax ∧
+      4 * c.z - (Sym.make V f g).centre4 ((Sym.make V f g).basic b).seg ((Sym.make V f g).basic b).ax ≤ w)
+    (hin : 4 * g.minZ ≤ (Sym.make V f g).centre4 b.seg b.ax - w ∧ (Sym.make V f g).centre4 b.seg b.ax + w ≤ 4 * g.maxZ) :
+    g.hasPlane (((Sym.make V f g).findSymOp b).onVoxel c) = true := by
+  have h := onVoxel_z_slab V f g hg b c w hc
+  simp only [AxGeo.hasPlane, decide_eq_true_eq]
+  omega
+
 /-! ## cache -/
 
 /-- `cache_key` (bit packing 1+28+1+12+1+20 bits) is injective on the box whose bounds `set_up` checks.
@@ -105,50 +150,21 @@ theorem C03_cacheKey_injective (b b' : Bin) (hb : InBox b) (hb' : InBox b') (h :
     clearing the cache or setting the matrix up again for another geometry": **for every history** of
     `get | clear_cache | enable_cache | store_only_basic_bins_in_cache | set_* | set_up` on a new object, every row
     handed out is `(findSymOp b).onRow (compute (basic b))` — bin included — for the geometry and parameters the last
-    `set_up` call asked for.
-
-    `_partial`: `hsame` excludes histories that call `set_up` for two *different* geometries which agree in projection
-    data, voxel size and origin (i.e. differ in the index range of the image only): `set_up` returns early for those
-    (see `C03_cache_refines_fails`).  `Req`: requested bins lie in the view range and in the key box. -/
-theorem C03_cache_refines_partial {G α : Type} (w : World G α) (hWF : ∀ g p, (w.symOf g p).WF)
-    (hsame : ∀ g g', w.sameDataVoxelOrigin g g' = true → g = g')
+    `set_up` call asked for.  A geometry is what `set_up` compares: projection data, voxel size, origin and index
+    range of the image.  `Req`: requested bins lie in the view range and in the key box. -/
+theorem C03_cache_refines {G α : Type} [DecidableEq G] (w : World G α) (hWF : ∀ g p, (w.symOf g p).WF)
     (p0 : Params) (evs : List (Ev G))
     (hreq : ∀ x ∈ (PM.fresh p0 : PM G α).run w none evs, Req w x) :
     ∀ x ∈ (PM.fresh p0 : PM G α).run w none evs, Refines w x :=
-  run_refines w hWF hsame evs (PM.fresh p0) none
+  run_refines w hWF evs (PM.fresh p0) none
     ⟨rfl, fun h => absurd h (by simp [PM.fresh]), fun g p h => absurd h (by simp [PM.fresh])⟩ hreq
 
-/-- the full statement (no `hsame`) — false of the code as it stands -/
-def C03_cache_refines_full : Prop :=
-  ∀ (G α : Type) (w : World G α), (∀ g p, (w.symOf g p).WF) → ∀ (p0 : Params) (evs : List (Ev G)),
-    (∀ x ∈ (PM.fresh p0 : PM G α).run w none evs, Req w x) → ∀ x ∈ (PM.fresh p0 : PM G α).run w none evs, Refines w x
-
-/-! ### negative witness: `set_up` for an image that differs in its index range only -/
-
-/-- after the second `set_up` (for the large image) the row still has the value of the small image … -/
-theorem C03_cache_refines_fails_run :
-    ((PM.fresh pDefault : PM Bool Nat).run wBad none evsBad).map (fun x => (x.2.1.map Prod.fst, x.2.2.elems.map Prod.snd)) =
-      [(some false, [0]), (some true, [0])] := by decide
-
-/-- … although the specification for the large image has the value 1: the full statement fails -/
-theorem C03_cache_refines_fails : ¬ C03_cache_refines_full := by
-  intro h
-  have hgood : Good ySimple ⟨0, 0, 0, 0, 0⟩ := ⟨by decide, ⟨by decide, by decide, by decide⟩, Or.inl rfl⟩
-  have hreq : ∀ x ∈ (PM.fresh pDefault : PM Bool Nat).run wBad none evsBad, Req wBad x := by
-    rw [runBad_eq]
-    intro x hx
-    simp only [List.mem_cons, List.mem_singleton, List.not_mem_nil, or_false] at hx
-    rcases hx with rfl | rfl
-    · exact ⟨false, pDefault, rfl, hgood⟩
-    · exact ⟨true, pDefault, rfl, hgood⟩
-  have := h Bool Nat wBad (fun _ _ => ySimple_WF) pDefault evsBad hreq
-  rw [runBad_eq] at this
-  obtain ⟨g, p, h1, h2⟩ := this _ (List.mem_cons_of_mem _ (List.mem_cons_self))
-  simp only [Option.some.injEq, Prod.mk.injEq] at h1
-  obtain ⟨rfl, rfl⟩ := h1
-  have h3 : spec wBad true pDefault ⟨0, 0, 0, 0, 0⟩ = some ⟨⟨0, 0, 0, 0, 0⟩, [(⟨0, 0, 0⟩, 1)]⟩ := by rfl
-  rw [h3] at h2
-  simp at h2
+/-- the case repaired in `ProjMatrixByBinUsingRayTracing::set_up`: after `set_up` for an image that differs from the
+    previous one in its index range only, rows are those of the new image (value 1), and a third `set_up` with the
+    same image is skipped without harm -/
+theorem C03_setup_other_index_range :
+    ((PM.fresh pDefault : PM Bool Nat).run wRange none evsRange).map (fun x => (x.2.1.map Prod.fst, x.2.2.elems.map Prod.snd)) =
+      [(some false, [0]), (some true, [1]), (some true, [1])] := by decide
 
 /-! ## non-vacuity -/
 
@@ -168,12 +184,12 @@ example : Flags.effective ⟨true, false, true, true, true⟩ 6 true true false 
 /-- the axial geometry of a 3-ring scanner (span 1, 5 planes) is symmetric in the segment number -/
 example : sampleGeo.Symmetric := ⟨fun s => rfl, fun s => by simp only [sampleGeo, iabs]; split <;> split <;> omega⟩
 
-/-- the hypotheses of `C03_cache_refines_partial` are satisfiable by a history with repeats, mode switches,
+/-- the hypotheses of `C03_cache_refines` are satisfiable by a history with repeats, mode switches,
     `clear_cache` and `set_up` for a second geometry, and its run hands out five rows -/
-example : (∀ g p, (wGood.symOf g p).WF) ∧ (∀ g g', wGood.sameDataVoxelOrigin g g' = true → g = g') ∧
+example : (∀ g p, (wGood.symOf g p).WF) ∧
     ((PM.fresh pDefault : PM Bool Nat).run wGood none evsGood).length = 5 ∧
     (∀ x ∈ (PM.fresh pDefault : PM Bool Nat).run wGood none evsGood, Req wGood x) := by
-  refine ⟨fun _ _ => ySample_WF, by decide, by decide, ?_⟩
+  refine ⟨fun _ _ => ySample_WF, by decide, ?_⟩
   intro x hx
   have hg : ∀ b ∈ [(⟨-1, 6, 2, -1, 0⟩ : Bin), ⟨1, 2, 0, 1, 0⟩, ⟨1, 5, 1, -1, 0⟩], Good ySample b := by
     intro b hb
@@ -189,6 +205,13 @@ example : (∀ g p, (wGood.symOf g p).WF) ∧ (∀ g g', wGood.sameDataVoxelOrig
   simp only [List.mem_cons, List.mem_singleton, List.not_mem_nil, or_false, Prod.mk.injEq] at h2
   rcases h2 with ⟨hb, hc⟩ | ⟨hb, hc⟩ | ⟨hb, hc⟩ | ⟨hb, hc⟩ | ⟨hb, hc⟩ <;>
     exact ⟨_, _, hc, by rw [hb]; exact hg _ (by simp)⟩
+
+/-- the hypotheses of `C03_row_in_image_z_partial` are satisfiable: 3 rings, 5 planes, the middle ring (tube of one
+    plane on either side, `w = 4` quarter planes) — and `hin` fails for the two end rings -/
+example : endGeo.Symmetric ∧
+    (4 * endGeo.minZ ≤ yEnd.centre4 0 1 - 4 ∧ yEnd.centre4 0 1 + 4 ≤ 4 * endGeo.maxZ) ∧
+    ¬ (4 * endGeo.minZ ≤ yEnd.centre4 0 0 - 4) ∧ ¬ (yEnd.centre4 0 2 + 4 ≤ 4 * endGeo.maxZ) :=
+  ⟨⟨fun s => rfl, fun s => by simp only [endGeo, iabs]; split <;> split <;> omega⟩, by decide, by decide, by decide⟩
 
 /-- two bins that differ in the sign of the tangential position only get different cache keys -/
 example : cacheKey ⟨0, 0, 3, 2, 0⟩ ≠ cacheKey ⟨0, 0, 3, -2, 0⟩ ∧ InBox ⟨0, 0, 3, -2, 0⟩ := by
